@@ -1647,3 +1647,55 @@ def r12_8(rep):
             rep.bad("ident-of-user-text:%s@%s" % (lab, short(b)),
                     "`Ident::new(..)` panics when the user-supplied text of `%s` is not a Rust identifier; it must be validated / reported "
                     "as an error value first" % lab, b.loc(n))
+
+
+# ---------------------------------------------------------------------------------------------------------------------
+# R12.9 — added by the main session after an independently seeded change (`Item::from_ty(elem, ..)?` -> `.expect(..)` in the
+# vector arm of Type::from_clang_ty) was missed.
+PARSE_RESULT_PANICS = {
+    # (function, callee whose Result<_, ParseError> is unwrapped, match arm the site sits in): reason it cannot fail today
+    ("CompInfo::from_ty", "Item::parse", "CXCursor_ClassDecl|CXCursor_ClassTemplate|CXCursor_EnumDecl|CXCursor_StructDecl|CXCursor_TypeAliasDecl|CXCursor_TypeAliasTemplateDecl|CXCursor_TypedefDecl|CXCursor_UnionDecl"):
+        "inner declaration of a record: Item::parse of a type declaration cursor yields an item or an opaque fallback",
+    ("FunctionSig::from_ty", "Item::parse", ""): "parameter declaration of a function prototype",
+    ("ObjCInterface::from_ty", "FunctionSig::from_ty", "CXCursor_ObjCClassMethodDecl|CXCursor_ObjCInstanceMethodDecl"): "ObjC method declarations always have a signature",
+    ("Type::from_clang_ty", "CompInfo::from_ty", "CXType_Invalid|CXType_Unexposed"): "guarded by a declaration kind check just before",
+    ("Type::from_clang_ty", "Item::from_ty", "CXType_DependentSizedArray|CXType_VariableArray"): "array element types are complete object types",
+    ("Type::from_clang_ty", "Item::from_ty", "CXType_IncompleteArray"): "array element types are complete object types",
+    ("Type::from_clang_ty", "Enum::from_ty", "CXType_Enum"): "the type kind was just checked to be an enum",
+    ("Type::from_clang_ty", "CompInfo::from_ty", "CXType_Record"): "the type kind was just checked to be a record",
+    ("Type::from_clang_ty", "Item::from_ty", "CXType_ConstantArray"): "array element types are complete object types",
+}
+
+
+@RULES.rule("R12.9", "a construct bindgen cannot model is propagated as ParseError (opaque fallback), not unwrapped — frozen inventory", floor=9)
+def r12_9(rep):
+    """`Item::from_ty(..)?` is the entry to the opaque-fallback chain (resolve_typerefs / from_ty_or_ref_with_id turn the
+    error into an opaque type).  Unwrapping such a result turns a header clang accepts (e.g. a vector of `_BitInt(32)`)
+    into a panic.  The sites that unwrap today are frozen with the reason each cannot fail; a new one is a violation."""
+    from hir import pat_variants as _pv
+    prog = rep.prog
+    seen = set()
+    for p, b in prog.bodies.items():
+        for c in b.calls(lambda n: n["k"] == "MCall" and n["name"] in ("unwrap", "expect", "unwrap_unchecked")):
+            rt = prog.types[c["rt"]]
+            if not (rt.startswith("std::result::Result") and "parse::ParseError" in rt):
+                continue
+            arm = ""
+            for pol, kind, g in b.guards(c):
+                if kind == "arm":
+                    m, i = g
+                    arm = "|".join(sorted(v.split("::")[-1] for v in _pv(m["arms"][i]["pat"])))
+            r = strip(c["recv"])
+            callee = (r.get("resolved") or r.get("callee") or r.get("name") or "?")
+            fn = "::".join(p.split("::")[-2:])
+            key = (fn, "::".join(callee.split("::")[-2:]), arm)
+            inst = "parse-result-unwrapped:%s:%s%s" % (key[0], key[1], (":" + arm.split("|")[0]) if arm else "")
+            if key in PARSE_RESULT_PANICS:
+                seen.add(key)
+                rep.ok(inst, PARSE_RESULT_PANICS[key], b.loc(c))
+            else:
+                rep.bad(inst, "`%s` on the `Result<_, ParseError>` of `%s`: a construct bindgen cannot model panics here instead of "
+                        "falling back to an opaque type" % (c["name"], callee), b.loc(c))
+    for key in PARSE_RESULT_PANICS:
+        if key not in seen:
+            rep.ok("inventory-entry-gone:%s:%s" % (key[0], key[1]), "site no longer unwraps (stricter than the inventory)")
